@@ -8,7 +8,7 @@ from ovld import Ovld
 
 import gen_dependent as GD
 
-CORPUS = {bytes: [b"ab", b"x"], int: [0, 1, 2, 3, 4, 5, 6, 7, -1, 101, True], str: ["a", "b", "ab", "ca", "xb", "", "abc"], bool: [True, False], tuple: [(1, "a"), (1, 1), (1,), (2, "b"), ("a", 1), (1.0, "a"), (True, "a"), (1, "a", 2)]}
+CORPUS = {bytes: [b"ab", b"x"], int: [0, 1, 2, 3, 4, 5, 6, 7, -1, 101, True], str: ["a", "b", "ab", "ca", "xb", "", "abc", "{{", "{", "}}", "{arg}", "ARG0", "it's", 'say "hi"', "back\\slash", "{0}", "%s"], bool: [True, False], tuple: [(1, "a"), (1, 1), (1,), (2, "b"), ("a", 1), (1.0, "a"), (True, "a"), (1, "a", 2)]}
 
 
 def _strictly_below(ra, rb):
